@@ -124,7 +124,9 @@ def gen_value(rng, name, field, code, pv, docs):
         h = '%032x' % rng.getrandbits(128)
         return '%s-%s-%s-%s-%s' % (h[:8], h[8:12], h[12:16], h[16:20], h[20:])
     if code == 'strings_v':
-        return [rng.choice(STRINGS[1:]) for _ in range(rng.choice((0, 1, 3)))]
+        # (the count is a VarInt: 128 names and more need its second byte)
+        return [rng.choice(STRINGS[1:6]) for _ in range(rng.choice(
+            (0, 1, 3, 3, 1, 127, 128, 129, 300)))]
     if code == 'nbt':
         return rng.choice(docs)
     raise KeyError(code)
